@@ -250,6 +250,7 @@ func runCase(op *Sx) string {
 }
 
 var depthProbe []int
+var outDir string
 
 func callDepth() int {
 	pcs := make([]uintptr, 4096)
@@ -304,7 +305,7 @@ func direct(r *Rng, sink *Sink, n int, deep int) int {
 	// run-once: repeated and concurrent requests
 	for i := 0; i < n/20+3; i++ {
 		v := r.Range(1, 99)
-		var cnt [7]atomic.Int64
+		var cnt [16]atomic.Int64
 		slow := func(k int) int { cnt[k].Add(1); time.Sleep(300 * time.Microsecond); return v }
 		thunks := []func() int{
 			lazy.Call(func() int { return slow(0) }).Get,
@@ -319,6 +320,39 @@ func direct(r *Rng, sink *Sink, n int, deep int) int {
 		cell := fp.MakeList(func() fp.Option[int] { return fp.Some(slow(5)) },
 			func() fp.List[int] { slow(6); return fp.MakeList(func() fp.Option[int] { return fp.None[int]() }, nil) })
 		thunks = append(thunks, func() int { return cell.Head() }, func() int { cell.Tail(); return v })
+		// every arity of the generated TailCallN family must memoise its step too
+		arityBase := len(thunks)
+		for ar := 1; ar <= 9; ar++ {
+			k := arityBase + ar - 1
+			step := func() Ev { slow(k); return lazy.Done(v) }
+			var e Ev
+			switch ar {
+			case 1:
+				e = lazy.TailCall1(func(int) Ev { return step() }, 0)
+			case 2:
+				e = lazy.TailCall2(func(_, _ int) Ev { return step() }, 0, 0)
+			case 3:
+				e = lazy.TailCall3(func(_, _, _ int) Ev { return step() }, 0, 0, 0)
+			case 4:
+				e = lazy.TailCall4(func(_, _, _, _ int) Ev { return step() }, 0, 0, 0, 0)
+			case 5:
+				e = lazy.TailCall5(func(_, _, _, _, _ int) Ev { return step() }, 0, 0, 0, 0, 0)
+			case 6:
+				e = lazy.TailCall6(func(_, _, _, _, _, _ int) Ev { return step() }, 0, 0, 0, 0, 0, 0)
+			case 7:
+				e = lazy.TailCall7(func(_, _, _, _, _, _, _ int) Ev { return step() }, 0, 0, 0, 0, 0, 0, 0)
+			case 8:
+				e = lazy.TailCall8(func(_, _, _, _, _, _, _, _ int) Ev { return step() }, 0, 0, 0, 0, 0, 0, 0, 0)
+			case 9:
+				e = lazy.TailCall9(func(_, _, _, _, _, _, _, _, _ int) Ev { return step() }, 0, 0, 0, 0, 0, 0, 0, 0, 0)
+			}
+			if i%3 == 1 {
+				// a shared sub-term: requested twice inside one evaluation
+				thunks = append(thunks, lazy.Map2(e, e.Map(func(x int) int { return x }), func(a, b int) int { return (a + b) / 2 }).Get)
+			} else {
+				thunks = append(thunks, e.Get)
+			}
+		}
 		for ti, th := range thunks {
 			var wg sync.WaitGroup
 			bad := atomic.Int64{}
@@ -350,8 +384,23 @@ func direct(r *Rng, sink *Sink, n int, deep int) int {
 		if arity == 1 {
 			d = deep
 		}
+		// shallow run first: a stack that grows with n shows in the call-depth probes long before it overflows
+		depthProbe = depthProbe[:0]
+		gotS := lazy.Run(deepLoopN(arity, 3000, 0))
+		checks++
+		minS, maxS := 1<<30, 0
+		for _, x := range depthProbe {
+			minS, maxS = min(minS, x), max(maxS, x)
+		}
+		if gotS != 3000 || maxS-minS > 2 || maxS > 64 {
+			sink.DirectFail(fmt.Sprintf("lazy.TailCall%d/stack", arity), fmt.Sprintf("(law stack-safe arity=%d depth=3000)", arity),
+				fmt.Sprintf("result %d, call depth between %d and %d over %d probes", gotS, minS, maxS, len(depthProbe)))
+			continue // the deep run would only kill the process
+		}
+		sink.Probe(outDir, fmt.Sprintf("lazy.TailCall%d/stack", arity), fmt.Sprintf("(law stack-safe arity=%d depth=%d)", arity, d))
 		depthProbe = depthProbe[:0]
 		got := lazy.Run(deepLoopN(arity, d, 0))
+		sink.ProbeDone(outDir)
 		checks++
 		minD, maxD := 1<<30, 0
 		for _, x := range depthProbe {
@@ -405,6 +454,7 @@ func main() {
 		return
 	}
 	r := NewRng(*seed)
+	outDir = *out
 	sink := NewSink(*out)
 	debug.SetMaxStack(32 << 20) // a tail loop whose stack grew with n would die here
 	if *opsFile != "" {
